@@ -280,7 +280,7 @@ static ssize_t channel_write(int fd, const struct iovec *iov, int iovcnt, size_t
         inj = "short";
     }
     /* 3. would this write block?  tell the gate (a stalled pager is released). */
-    if (fd != 1) {
+    if (fd != 1 && !(iovcnt == 1 && gate_path[0])) {
         struct pollfd p = {.fd = fd, .events = POLLOUT};
         if (poll(&p, 1, 0) == 0) {
             logf_("W-BLOCK fd=9 k=%ld wtot=%ld", k, w_bytes);
@@ -291,7 +291,42 @@ static ssize_t channel_write(int fd, const struct iovec *iov, int iovcnt, size_t
     /* 4. perform it (at most `want` bytes) */
     ssize_t ret;
     uint64_t h = 0xcbf29ce484222325ULL;
-    if (iovcnt == 1) {
+    if (iovcnt == 1 && fd != 1 && gate_path[0]) {
+        /* A pipe can be "writable" for poll(2) (a free slot) and still block in the middle of a
+         * write that needs more slots than are free.  Try without blocking first; if the pipe takes
+         * only a part, say BLOCK to the gate (a stalled pager resumes) and write the rest blocking,
+         * so that delta sees what a blocking write gives: the whole count. */
+        size_t len = want < iov[0].iov_len ? want : iov[0].iov_len;
+        const char *b = iov[0].iov_base;
+        int fl = fcntl(fd, F_GETFL);
+        size_t done = 0;
+        ret = 0;
+        if (fl >= 0 && !(fl & O_NONBLOCK) && fcntl(fd, F_SETFL, fl | O_NONBLOCK) == 0) {
+            ssize_t r = real_write(fd, b, len);
+            int e0 = errno;
+            fcntl(fd, F_SETFL, fl);
+            if (r >= 0) done = (size_t)r;
+            else if (e0 != EAGAIN) {
+                ret = -1;
+                errno = e0;
+            }
+            if (ret == 0 && done < len) {
+                logf_("W-BLOCK fd=9 k=%ld wtot=%ld part=%zu", k, w_bytes, done);
+                maybe_sigint('B', 0);
+                gate_token("BLOCK");
+            }
+        }
+        while (ret == 0 && done < len) {
+            ssize_t r = real_write(fd, b + done, len - done);
+            if (r < 0) {
+                if (done == 0) ret = -1;
+                break;
+            }
+            done += (size_t)r;
+        }
+        if (ret == 0) ret = (ssize_t)done;
+        if (ret > 0) h = fnv(b, ret, h);
+    } else if (iovcnt == 1) {
         ret = real_write(fd, iov[0].iov_base, want < iov[0].iov_len ? want : iov[0].iov_len);
         if (ret > 0) h = fnv(iov[0].iov_base, ret, h);
     } else {
